@@ -308,7 +308,10 @@ pub fn body(case: &Case, out: &Shared) {
                         // its steps, the iterator has reported an error and is used again - first of
                         // all for a seek back to the key it stood on when the step failed (the block
                         // or file it was leaving), then for the seeks below
-                        for backward in [false, true] {
+                        // (which walk comes first alternates: the second one finds most blocks in the
+                        // block cache and therefore makes few filesystem calls that could fail)
+                        let order = if idx % 2 == 0 { [false, true] } else { [true, false] };
+                        for backward in order {
                             let positioned = if backward { it.seek_to_last().is_ok() } else { it.seek_to_first().is_ok() };
                             if !positioned {
                                 continue;
